@@ -38,6 +38,8 @@ type OpC10 struct {
 	Adj    uint64 `json:"pts_adjustment,omitempty"`
 	// SigKind: which command the descriptor's signal carries (see DescC19.SigKind)
 	SigKind int `json:"signal_kind,omitempty"`
+	// Unattached (process-nopts only): the descriptor comes straight from the creation API, no signal owns it
+	Unattached bool `json:"unattached,omitempty"`
 }
 
 type CaseC10 struct {
@@ -53,8 +55,11 @@ func genC10Op(t *rapid.T) OpC10 {
 	switch k := rapid.IntRange(0, 19).Draw(t, "opk"); {
 	case k < 12:
 		o.Kind = "process"
-	case k < 14:
+	case k < 13:
 		o.Kind = "reprocess"
+	case k < 14:
+		o.Kind = "reprocess-open"
+		o.Idx = rapid.IntRange(0, 3).Draw(t, "reopen-idx")
 	case k < 15:
 		o.Kind = "process-nopts"
 	case k < 19:
@@ -81,6 +86,7 @@ func genC10Op(t *rapid.T) OpC10 {
 		o.Wrapped = rapid.IntRange(0, 7).Draw(t, "wrapped") == 0
 		o.Cancel = !o.Decoded && rapid.IntRange(0, 7).Draw(t, "cancel") == 0
 		o.SigKind = rapid.IntRange(0, 3).Draw(t, "signal-kind")
+		o.Unattached = o.Kind == "process-nopts" && !o.Decoded && rapid.IntRange(0, 2).Draw(t, "unattached") == 0
 		if rapid.IntRange(0, 3).Draw(t, "adjusted") == 0 {
 			o.Adj = rapid.SampledFrom([]uint64{1, 500, 1 << 32, 1<<33 - 1}).Draw(t, "adj")
 		}
@@ -107,7 +113,7 @@ type c10Desc struct {
 }
 
 func c10Make(o OpC10, pts uint64, hasPTS bool) (*c10Desc, *hx.Failure) {
-	abs := DescC19{Type: o.Type, Event: o.Event, HasPTS: hasPTS, PTS: pts, Num: o.Num, Exp: o.Exp, Decoded: o.Decoded, Cancel: o.Cancel && !o.Decoded, Adj: o.Adj, SigKind: o.SigKind,
+	abs := DescC19{Type: o.Type, Event: o.Event, HasPTS: hasPTS, PTS: pts, Num: o.Num, Exp: o.Exp, Decoded: o.Decoded, Cancel: o.Cancel && !o.Decoded, Adj: o.Adj, SigKind: o.SigKind, Unattached: o.Unattached && !hasPTS && !o.Decoded,
 		Rest: ref.SpliceDesc{Prog: true, NotRestricted: true, UPID: ref.Hex{}, MID: []ref.SegUPID{}, Comps: []ref.SegOffset{}}}
 	if o.HasSub && (o.Type == 0x34 || o.Type == 0x36) {
 		abs.HasSub, abs.SubNum, abs.SubExp = true, o.SubNum, o.SubExp
@@ -246,9 +252,25 @@ func checkC10(c CaseC10, x *hx.Ctx) (fail *hx.Failure) {
 		switch o.Kind {
 		case "open":
 			// checked below
-		case "process", "process-nopts", "reprocess":
+		case "process", "process-nopts", "reprocess", "reprocess-open":
 			var d *c10Desc
-			if o.Kind == "reprocess" {
+			if o.Kind == "reprocess-open" {
+				// an object that is open right now is submitted once more, however long ago it was processed
+				var open []*c10Desc
+				for _, sd := range seen {
+					if sd.status == 1 && sd.abs.Type != 0x13 && sd.abs.HasPTS {
+						open = append(open, sd)
+					}
+				}
+				if len(open) == 0 {
+					continue
+				}
+				d = open[0] // the oldest one: the most calls in between
+				if o.Idx > 0 {
+					d = open[o.Idx%len(open)]
+				}
+				interesting = true
+			} else if o.Kind == "reprocess" {
 				if last == nil {
 					continue
 				}
@@ -294,7 +316,19 @@ func checkC10(c CaseC10, x *hx.Ctx) (fail *hx.Failure) {
 				byObj[d.obj] = d
 				seen = append(seen, d)
 			}
+			// "no call panics" includes the fatal error a call dies of when its memory grows without bound: once
+			// several descriptors share a signal time every call has an allocation budget (exact TotalAlloc delta)
+			var a0 uint64
+			budgeted := perPTS >= 6
+			if budgeted {
+				a0 = c05Allocated()
+			}
 			closed, err := st.ProcessDescriptor(d.obj)
+			if budgeted {
+				if used := c05Allocated() - a0; used > 4<<20 {
+					return hx.Failf("process-call-memory", "ProcessDescriptor allocated %d bytes for descriptor number %d on one signal time (a few more such calls end in an unrecoverable out-of-memory error), after %d calls", used, perPTS, len(hist))
+				}
+			}
 			if len(closed) > 0 {
 				retained = append(retained, retainedList{got: closed, want: append([]scte35.SegmentationDescriptor{}, closed...), at: len(hist)})
 			}
@@ -477,9 +511,9 @@ func checkC10(c CaseC10, x *hx.Ctx) (fail *hx.Failure) {
 var propC10 = hx.Register(hx.Prop[CaseC10]{ID: "C10", Gen: genC10, Check: checkC10})
 
 func c10Rule() {
-	hx.Rec("C10").SetRule("cases: histories of 1..40 calls on one tracker: process(new descriptor: type from a 26-type alphabet covering every rule kind plus two types without rules, weighted towards breakaway/resumption/network/unscheduled; event id 1..3; segment number/expected 0..2; sub-segment fields on 0x34/0x36; half of the 0x40 descriptors (and 1 in 16 of the others) carry a stream-switch-shaped multiple-UPID list in one of five shapes with signal id 0..2; one descriptor in eight reaches the tracker inside a decorator type; one API-built descriptor in eight has the cancel indicator set; one signal in four gets part of its time from pts_adjustment; attached to a signal whose PTS repeats the previous one (<= 5 per PTS; API-built ones then share ONE signal object, as the descriptors of one decoded section do) or advances; built through the API or by decoding a reference encoding), process(the same object again immediately), process(descriptor whose signal has no PTS: splice_null, immediate or cancelled splice_insert, time-less time_signal), close(a previously seen descriptor, biased to recent ones, or a fresh one), open(). Oracle: invariants over the observable history by object identity, checked after EVERY call (a second tracker holding one open program sits next to it and must not notice): Open() contains only successfully processed, not yet closed, not discarded, distinct descriptors in opening order; every closed descriptor was open, never closed before, closable under the transcribed rule table and the library's own CanClose (or equal, for explicit close), closed lists last-opened first; immediate re-processing => duplicate error and unchanged Open(); PTS-less => error, nothing closed, unchanged Open(); a recovered panic is a violation. Enumerated: all histories of length <= 4 over 9 descriptor kinds + 2 explicit closes. Non-trivial: the history contains a breakaway and, while it is pending, a descriptor that closes it, an explicit close, a second breakaway, a resumption, or an immediate re-processing.",
-		"the same object is re-submitted only immediately (the duplicate ring legitimately forgets after 10 signal times)",
-		"at most 5 descriptors per PTS value (the received list doubles per same-PTS descriptor: a cost issue outside this property)",
+	hx.Rec("C10").SetRule("cases: histories of 1..40 calls on one tracker: process(new descriptor: type from a 26-type alphabet covering every rule kind plus two types without rules, weighted towards breakaway/resumption/network/unscheduled; event id 1..3; segment number/expected 0..2; sub-segment fields on 0x34/0x36; half of the 0x40 descriptors (and 1 in 16 of the others) carry a stream-switch-shaped multiple-UPID list in one of five shapes with signal id 0..2; one descriptor in eight reaches the tracker inside a decorator type; one API-built descriptor in eight has the cancel indicator set; one signal in four gets part of its time from pts_adjustment; attached to a signal whose PTS repeats the previous one (<= 5 per PTS; API-built ones then share ONE signal object, as the descriptors of one decoded section do) or advances; built through the API or by decoding a reference encoding), process(the same object again immediately), process(an object that is still open, any number of calls later), process(descriptor whose signal has no PTS: splice_null, immediate or cancelled splice_insert, time-less time_signal, or a descriptor no signal owns), close(a previously seen descriptor, biased to recent ones, or a fresh one), open(). Oracle: invariants over the observable history by object identity, checked after EVERY call (a second tracker holding one open program sits next to it and must not notice): Open() contains only successfully processed, not yet closed, not discarded, distinct descriptors in opening order; every closed descriptor was open, never closed before, closable under the transcribed rule table and the library's own CanClose (or equal, for explicit close), closed lists last-opened first; immediate re-processing => duplicate error and unchanged Open(); PTS-less => error, nothing closed, unchanged Open(); a recovered panic is a violation. Enumerated: all histories of length <= 4 over 9 descriptor kinds + 2 explicit closes. Non-trivial: the history contains a breakaway and, while it is pending, a descriptor that closes it, an explicit close, a second breakaway, a resumption, or an immediate re-processing.",
+		"an object is re-submitted either immediately or while it is open (then it must not end up in the open list twice); re-submitting an object that was already reported closed is not generated (the statement does not say whether it may open again)",
+		"at most 5 descriptors per signal time in drawn histories, up to 26 in the enumerated ones; from the 6th on each ProcessDescriptor call may allocate at most 4 MiB",
 		"a breakaway counts as open although Open() hides it while the blackout lasts; descriptors that vanish from Open() at a resumption count as discarded")
 }
 
@@ -536,7 +570,7 @@ func TestC10ManySamePTS(t *testing.T) {
 	if !hx.FirstShard() {
 		t.Skip("runs on shard 0")
 	}
-	for _, n := range []int{12, 21, 22} {
+	for _, n := range []int{12, 21, 22, 26} {
 		var ops []OpC10
 		for i := 0; i < n; i++ {
 			ops = append(ops, OpC10{Kind: "process", Type: []byte{0x30, 0x10, 0x20, 0x40, 0x34}[i%5], Event: uint32(1 + i), Num: byte(i % 3), SamePTS: true, Decoded: i%2 == 0})
@@ -546,5 +580,5 @@ func TestC10ManySamePTS(t *testing.T) {
 			t.Fatalf("VIOLATION-CANDIDATE property=C10 key=%s: %s", f.Key, f.Msg)
 		}
 	}
-	hx.Rec("C10").Subspace("12, 21 and 22 distinct descriptors on ONE signal time followed by an immediate repeat of the last")
+	hx.Rec("C10").Subspace("12, 21, 22 and 26 distinct descriptors on ONE signal time (per-call allocation budget 4 MiB) followed by an immediate repeat of the last")
 }
